@@ -16,7 +16,9 @@ ARC = J("arc", 20000, 1500000)
 
 VEC = J("vec", 20000, 1500000)
 
-ALL_JOBS = [ARC, VEC]
+CSTR = J("cstr", 20000, 1500000)
+
+ALL_JOBS = [ARC, VEC, CSTR]
 
 PROPS = {
     "C10": {
@@ -30,6 +32,12 @@ PROPS = {
         "real": ["cglue::vec (CVec, TempVec, cglue_reserve_vec, cglue_drop_vec)", "std Vec"],
         "stub": ["element types with logged destructors", "foreign module's reserve_fn/drop_fn + arena in foreign_policy runs", "C party transcribed from bindings.h"],
         "assumptions": COMMON_ASSUMPTIONS + ["std::vec::Vec is the reference model"],
+    },
+    "C14": {
+        "jobs": [CSTR],
+        "real": ["cglue::repr_cstring (ReprCString, ReprCStr, string_size)"],
+        "stub": ["global allocator (simalloc: red zones, non-zero fill, layout matching, leak accounting)"],
+        "assumptions": COMMON_ASSUMPTIONS + ["inputs are valid UTF-8 as the property states; only the system allocator's behaviour is simulated, not allocation failure"],
     },
 }
 
